@@ -1,12 +1,14 @@
-(* C04 — every recorded change can be replayed exactly; the recorded arrays stay aligned; a replace step
-   and a replace-around step (what lift and wrap are made of) are undone exactly by their inverses, and the
-   inverse's map is the inverted map.
-   (Exact undo of the other step types and of whole histories is evaluated per case by Corr.C04.holds on
+(* C04 — every recorded change can be replayed exactly; the recorded arrays stay aligned (also after a rejected operation);
+   every step type is undone exactly by its inverse under stated conditions - replace and replace-around steps always (and
+   the inverse's map is the inverted map), attribute / document-attribute steps for nodes in normal form, node-mark steps
+   and add / remove-mark steps when nothing is displaced or reordered (the cases the recorded findings leave) - and so is any
+   history of such steps, undone in reverse order from any valid document with the final tokens.
+   (That the inverse applies, and undo through the API on random histories, are evaluated per case by Corr.C04.holds on
    the implementation's observations.) *)
-From Coq Require Import List ZArith Bool.
+From Coq Require Import List ZArith Bool Lia.
 From PM Require Import Model.Data Model.Tree Model.StepMap Model.Step Model.Transform Spec.Tokens Proofs.TransformProofs
   Proofs.ReplaceValid Proofs.SliceSides Proofs.SliceShape Proofs.TokenLaws Proofs.StepTokens
-  Proofs.TokenInj Proofs.ReplaceCanon Proofs.DocEquality Proofs.TokenBasics Proofs.AroundUndo Proofs.AttrUndo Proofs.NodeMarkUndo Proofs.CanonicalMarks Proofs.MarkSteps Proofs.MarkPointwise Proofs.MarkMerge Proofs.MarkUndo Proofs.HistoryUndo Model.Resolve Model.Mark Proofs.MarkProofs.
+  Proofs.TokenInj Proofs.ReplaceCanon Proofs.DocEquality Proofs.TokenBasics Proofs.AroundUndo Proofs.AttrUndo Proofs.NodeMarkUndo Proofs.CanonicalMarks Proofs.MarkSteps Proofs.MarkPointwise Proofs.MarkMerge Proofs.MarkUndo Proofs.HistoryUndo Proofs.HistoryUndoMarks Model.Resolve Model.Mark Proofs.MarkProofs.
 Import ListNotations.
 Local Open Scope nat_scope.
 
@@ -221,6 +223,25 @@ Proof.
 Qed.
 Print Assumptions C04_history_undo.
 
+(* ... and with add-mark / remove-mark steps in the history as well: a mark step is undoable when, token by token over its
+   range, the opposite update undoes the update (AddUndoCond / RemoveUndoCond, Proofs/MarkUndo.v: what Transform.add_mark
+   and remove_mark arrange for the steps they plan); the other steps under the conditions of C04_history_undo.  Mark steps
+   read the root's type, so the document the undo starts from must have the final document's root type - every step and
+   every inverse keeps it, and the restored document has the starting document's. *)
+Theorem C04_history_undo_with_mark_steps : forall s d attempted invs e r,
+  let t := fold_left (fun t st => fst (maybe_step s t st)) attempted (tr_init d) in
+  inverses s (tr_before t) (t_steps t) = Ok invs ->
+  UndoableAllM s (tr_before t) (t_steps t) ->
+  check s e = true -> DT s e = DT s (t_doc t) -> node_ty s e = node_ty s (t_doc t) ->
+  Run s e invs r ->
+  DT s r = DT s (tr_before t) /\ node_ty s r = node_ty s (tr_before t).
+Proof.
+  intros s d attempted invs e r t Hinv Hall _ HeT Hety Hrun.
+  destruct (history_replay s d attempted) as (Hrep & _).
+  exact (history_undo_tokens_marks s _ _ _ _ Hrep Hinv Hall e r HeT Hety Hrun).
+Qed.
+Print Assumptions C04_history_undo_with_mark_steps.
+
 (* ... and for histories of replace steps with normal-form slices over a normal-form document, the restored
    document is EQUAL (Node.eq) to the starting one *)
 Theorem C04_replace_history_undo_gives_equal_document : forall s sts d dn invs r,
@@ -267,4 +288,20 @@ Proof.
   split; [discriminate|].
   intros n Hn. vm_compute in Hn. inversion Hn; subst n. split; [|vm_compute; reflexivity].
   split; [constructor|]. split; [vm_compute; reflexivity|exact I].
+Qed.
+
+(* the conditions are met by what add_mark plans: the em step over "cd" (6..8) of the example document of Properties/C01.v
+   touches two unmarked characters - nothing to displace - and the one-step history is undoable in the sense above *)
+Example C04_history_with_mark_step_example :
+  let s := Properties.C01.ex_schema in let doc := Properties.C01.ex_doc in let em := {| m_ty := 0; m_attrs := [] |} in
+  UndoableAllM s doc [SAddMark 6 8 em] /\
+  exists d1 r, apply s (SAddMark 6 8 em) doc = ROk d1 /\ d1 <> doc /\ inverses s doc [SAddMark 6 8 em] = Ok [SRemoveMark 6 8 em] /\
+               Run s d1 [SRemoveMark 6 8 em] r /\ r = doc.
+Proof.
+  cbv zeta. split.
+  - cbn [UndoableAllM UndoableM]. split; [|intros d1 _; exact I]. split; [vm_compute; reflexivity|].
+    intros i t0 H1 H2 Hn. assert (Hi : i = 6 \/ i = 7) by lia.
+    destruct Hi as [-> | ->]; vm_compute in Hn; inversion Hn; subst t0; (split; [exact I|intros o []]).
+  - do 2 eexists. split; [vm_compute; reflexivity|]. split; [discriminate|]. split; [vm_compute; reflexivity|].
+    split; [|reflexivity]. cbn [Run]. split; [vm_compute; reflexivity|]. eexists. split; [vm_compute; reflexivity|]. reflexivity.
 Qed.
